@@ -88,4 +88,14 @@ def obligations(sec, job, st):
 def run_job(engine, job):
     return std_run(engine, job, obligations, 'save.end', ID, job['name'])
 
-native_confirm = native_confirm_by(obligations)
+def native_confirm(nat, v):
+    out, sec = native_sections(nat, v['replay'])
+    if out['rc'] != 0: return None
+    obls = obligations(sec, v['job'], None)
+    locus = v['id'].split('/', 2)[-1]
+    bad = [o.locus for o in obls if o.bad is True]
+    if locus in bad: return True
+    # a structural defect can surface under another structural rule once the payload is concrete (e.g. a missing end
+    # marker is then "followed" as a record): any failing structural rule confirms a structural violation
+    if '/struct/' in locus and any('/struct/' in b for b in bad): return True
+    return False
